@@ -442,6 +442,14 @@ def evaluation_job(check, mirror, rb, crate, jobs, U):
         pvals = {"component_names": VecV(z3.IntVal(0), (), "Name"), "output_values_evaluators": VecV(z3.IntVal(0), (), "T"),
                  "default_output_values_evaluators": VecV(z3.IntVal(0), (), "T"), "rules": VecV(nr.e, rules, "ParsedRule")}
         missing = [f for f in f_pdt if f not in pvals]
+        import interior
+        ftypes = interior.struct_field_types(src, "ParsedDecisionTable")
+        for f in list(missing):
+            # a field this obligation does not know: state kept inside the compiled table (OnceLock, Mutex, ..) is modelled as such -
+            # it may hold whatever an earlier evaluation left there (lib/interior.py); any other new field is refused
+            if interior.is_interior(ftypes.get(f, "")):
+                pvals[f] = Opaque("InteriorState", (f, ftypes[f]))
+                missing.remove(f)
         if missing:
             raise MirUnsupported("ParsedDecisionTable has fields the model does not know: %s" % missing)
         pdt = Adt("struct", "ParsedDecisionTable", [pvals[f] for f in f_pdt])
@@ -506,14 +514,34 @@ def evaluation_job(check, mirror, rb, crate, jobs, U):
             # only the outputs of matching rules reach the result: a non-matching rule's outputs need not be evaluated at all
             props.append(("rule %d, when it matches, carries the value of its own output entry" % (r + 1), z3.Implies(all_true, z3.BoolVal(bool(okout)))))
         props.append(("reach:three rules", z3.BoolVal(n == NR)))
+        # what the hit policy gets besides the rules: the allowed and the default output values THIS evaluation computed (the table of this
+        # obligation declares none) - not values left inside the compiled table by an earlier evaluation with other inputs
+        stale = [e for e in o.st.log if e[0] == "stale_state"]
+        ov, dov = edt.fields[f_edt.index("output_values")], edt.fields[f_edt.index("default_output_values")]
+        props.append(("the allowed and default output values handed to the hit policy are the ones this evaluation computed, nothing an earlier evaluation left in the compiled table",
+                      z3.And(ov.len == 0, dov.len == 0, z3.BoolVal(not stale))))
         return props
 
     def desc(m, v):
         return {k: model_value(m, x) for k, x in v.items() if not k.startswith("_")}
 
-    def replay(i, rb):
+    def replay_sequence(rb):
+        """two evaluations of ONE compiled table whose default output depends on the input: each must give what it gives on an evaluator of its own"""
+        xml = ('<?xml version="1.0" encoding="UTF-8"?><definitions namespace="https://verif" name="m" id="_m" xmlns="https://www.omg.org/spec/DMN/20191111/MODEL/">'
+               '<inputData name="a" id="_a"><variable name="a" typeRef="number"/></inputData><decision name="d" id="_d"><variable name="d"/>'
+               '<informationRequirement><requiredInput href="#_a"/></informationRequirement><decisionTable hitPolicy="UNIQUE"><input><inputExpression><text>a</text></inputExpression></input>'
+               '<output><defaultOutputEntry><text>a * 2</text></defaultOutputEntry></output>'
+               '<rule><inputEntry><text>&lt; 0</text></inputEntry><outputEntry><text>0</text></outputEntry></rule></decisionTable></decision></definitions>')
+        _, seq, _ = replay_call(rb, ["model_eval_seq", xml, "d", "{a: 1}", "d", "{a: 5}", "d", "{a: 1}"])
+        alone = [replay_call(rb, ["model_eval", xml, "d", c])[1].replace("VALUE ", "") for c in ("{a: 1}", "{a: 5}", "{a: 1}")]
+        got = seq.replace("VALUES ", "").split(" | ")
+        return got != alone, "one compiled table with default output `a * 2`, evaluated with a = 1, 5, 1: %s; each on an evaluator of its own: %s" % (got, alone)
+
+    def replay(i, rb, label=""):
         """a table with one input a and the witness's rules (entry true -> `-`, false -> `< 0`, null -> `null`... rendered as tests on a = 1);
         policy ANY / COLLECT list show which rules were taken into account"""
+        if "an earlier evaluation" in label:
+            return replay_sequence(rb)
         hpn = [k for k, c in HP.items() if c == i["hit_policy"]][0]
         agn = [k for k, c in AG.items() if c == i["aggregator"]][0]
         attr = {"Unique": 'hitPolicy="UNIQUE"', "Any": 'hitPolicy="ANY"', "Priority": 'hitPolicy="PRIORITY"', "First": 'hitPolicy="FIRST"', "RuleOrder": 'hitPolicy="RULE ORDER"',
@@ -552,7 +580,9 @@ def evaluation_job(check, mirror, rb, crate, jobs, U):
                     "Max": str(max(matched)) if matched else "null"}[agn]
         same = got == want or (want in ("null", "[]") and got in ("null", "[]"))
         return not same, "%s table, rules matching a = 1: %s -> %s, specified %s" % (attr, matched, got[:60], want)
-    jobs.append(lambda c: decide(c, crate, "evaluation/rules_and_dispatch", setup, post, replay, rb, models=[(re.compile(r"^format$|^std::fmt::format$|^alloc::fmt::format$"), m_format_stub)] + fv.VALUE_MODELS,
+    import interior as _interior
+    replay.wants_label = True
+    jobs.append(lambda c: decide(c, crate, "evaluation/rules_and_dispatch", setup, post, replay, rb, models=[(re.compile(r"^format$|^std::fmt::format$|^alloc::fmt::format$"), m_format_stub)] + _interior.interior_models(U) + fv.VALUE_MODELS,
                                  unwind=4 * NR + 10, describe=desc, need_reach=["reach:three rules"], budget_s=900, max_cex=8, max_per_label=2,
                                  prefer=lambda v: z3.And([v[k] != 2 for k in v if k.startswith("r") and "_in" in k])))
 
